@@ -87,10 +87,19 @@ impl<T> IpMatcher<T> {
         let mut routes = self.no_matcher.match_request(request);
 
         if let Some(remote_addr) = request.remote_addr.as_ref() {
+            let mut matched_ranges = 0;
+
             for (ip_cidr, matcher) in &self.matchers {
                 if ip_cidr.match_ip(remote_addr) {
+                    matched_ranges += 1;
                     routes.extend(matcher.match_request(request));
                 }
+            }
+
+            // a route with several ip constraints is stored once per constraint: report it once
+            if matched_ranges > 1 {
+                let mut seen = HashSet::new();
+                routes.retain(|route| seen.insert(Arc::as_ptr(route)));
             }
         }
 
